@@ -160,7 +160,7 @@ PROPS["C06"]["claim"] += (" For PLAIN the mechanism side of that contract is pro
                           "(no configured credentials => every HELLO is rejected), an error is terminal, Ready on the server is reachable only from ServerSendWelcome.")
 PROPS["C06"]["level_note"] = ("Relative to the abstract Mechanism contract for CURVE/Noise (cryptography: not applicable) and to negotiate_security_mechanism's contract (assumed). "
                               "When the Verus route cannot decide after an edit (rewrite anchor lost / construct outside the subset), the bounded Kani harness on the real PLAIN mechanism runs as fallback (bounded, never counted as proved).")
-PROPS["C07"]["units"] = ["dec", "framer", "engine", "framebatch", "command", "plain"]
+PROPS["C07"]["units"] = ["dec", "framer", "engine", "framebatch", "command", "plain", "greeting"]
 
 PROPS["C18"]["claim"] = ("Record layer only, for ANY cipher (encrypt/decrypt abstract): writers return either an error or a record whose 16-bit big-endian length prefix equals the number of ciphertext bytes that follow; "
                          "the reader (LengthPrefixedFramer::try_read_msg) cuts records exactly at their announced length, consumes them whole and in order, hands each to the cipher exactly once, and leaves an incomplete record untouched "
@@ -190,10 +190,11 @@ PROPS["C17"] = {
   "assumptions": ["machine arithmetic modelled exactly"],
 }
 PROPS["C05"] = {
-  "units": ["engine", "compat"],
+  "units": ["engine", "compat", "greeting"],
   "kani_quick": [], "kani_thorough": [],
   "claim": "Partial: (1) staged greeting on the verbatim process_greeting: our revision byte is sent as soon as the peer's 10-byte signature is seen and at most once, ZMTP/3 is committed as soon as the peer's revision byte is seen "
            "(no stage waits for more than the peer's previous stage: no mutual wait); (2) the inproc compatibility table equals the ZeroMQ pairing table outside a recorded gap of six pairs, the pairing table is symmetric; "
+           "(2b) ZmtpGreeting::decode is total, consumes exactly 64 bytes and accepts exactly the well-formed greetings, encode produces one, encode_v3_tail/encode_signature produce the staged pieces (decode after encode returns version 3.0, the mechanism and the role); "
            "(3) on the ZMTP/2.0 path HandshakeComplete is emitted only after validate_v2_compatibility returned Ok. Two known findings are reported (inproc gap, ZMTP/3 never validates Socket-Type).",
   "level_note": "Convergence of two real endpoints over real sockets, the security phase for CURVE/Noise and 'both end in failure without waiting forever' are schedule/liveness properties: not covered. validate_v2_compatibility itself matches on strings (outside Verus); its table is checked by the Kani harness vk_v2_compat_table when tractable.",
   "technique": "contract-based deductive verification (Verus) with two recorded known findings",
